@@ -387,6 +387,7 @@ package varmq
 // then never see its own, already cancelled context still installed and stop the restarted worker.
 //@   ghost after call sync.RWMutex.Unlock: w.$lockEpoch := w.$lockEpoch + 1
 //@   ghost after call funcvalue: w.$cancelEpoch := w.$lockEpoch
+//@   assert [cancel-locked@C14] after call funcvalue: $held(w.mx)
 //@   assert [rearm-atomic@C14] after store ctx: $held(w.mx) && w.$cancelEpoch == w.$lockEpoch
 
 // TunePool: only a running worker can be tuned; the limit becomes withSafeConcurrency(n); growing raises the signal; shrinking (without
